@@ -328,7 +328,7 @@ def check_c11(ctx, R):
     if sep is None:
         raise AnalysisError("H6: cannot find the separator literal of HRef.name")
     nsrc = norm(nm.node)
-    for need, what in (("'[{}]'", "bus suffix"), ("lower_index +", "bus index base"), ("names[:-1]", "top-instance name dropped"), ("is_array", "suffix only for arrays")):
+    for need, what in (("'[{}]'", "bus suffix"), ("lower_index +", "bus index base"), ("[:-1]", "top-instance name dropped"), ("is_array", "suffix only for arrays")):
         if need in nsrc:
             R.ok("H6", "HRef.name: %s" % what, nm.loc())
         else:
@@ -364,8 +364,9 @@ def check_c11(ctx, R):
     if ga is None:
         raise AnalysisError("anchor vanished: HRef.get_all_hrefs_of_instances")
     pushes = []
+    worklists = {norm(w.test) for w in walk_local(ga.node) if isinstance(w, ast.While) and isinstance(w.test, ast.Name)}
     for c in walk_local(ga.node):
-        if isinstance(c, ast.Call) and isinstance(c.func, ast.Attribute) and c.func.attr == "append" and norm(c.func.value) == "search_stack" \
+        if isinstance(c, ast.Call) and isinstance(c.func, ast.Attribute) and c.func.attr == "append" and norm(c.func.value) in worklists \
                 and any(isinstance(p, ast.For) and "children" in norm(p.iter) for p in parent_chain(c)):
             pushes.append(c)
     if not pushes:
@@ -378,8 +379,9 @@ def check_c11(ctx, R):
                 conds.append((norm(p.test), in_body))
             if isinstance(p, ast.For):
                 break
-        bad = [t for t, b in conds if (not b and "in instances" in t and "not in" not in t) or (b and "not in instances" in t)]
-        need = [t for t, b in conds if b and "in bound" in t]
+        tgt = ga.params[0]
+        bad = [t for t, b in conds if (not b and (" in %s" % tgt) in t and "not in" not in t) or (b and ("not in %s" % tgt) in t)]
+        need = [t for t, b in conds if b and " in " in t and "not in" not in t and (" in %s" % tgt) not in t]
         if bad:
             R.bad("H7", "%s|descent-excludes-targets" % ga.key, ga.loc(c),
                   "the search descends into a child only when it is NOT itself a target (`%s` is tested first): a queried instance that is an ancestor of another "
@@ -530,7 +532,10 @@ def check_c12(ctx, R):
                 for g in filt:
                     n9 += 1
                     t = g.generators[0].ifs[0]
-                    if isinstance(t, ast.Compare) and isinstance(t.ops[0], ast.NotEq) and {norm(t.left), norm(t.comparators[0])} == {norm(g.generators[0].target), "hpin"}:
+                    popped = {norm(a.targets[0]) for a in walk_local(f.node) if isinstance(a, ast.Assign) and isinstance(a.value, ast.Call)
+                              and isinstance(a.value.func, ast.Attribute) and a.value.func.attr == "pop"}
+                    if isinstance(t, ast.Compare) and isinstance(t.ops[0], ast.NotEq) and norm(g.generators[0].target) in (norm(t.left), norm(t.comparators[0])) \
+                            and ({norm(t.left), norm(t.comparators[0])} - {norm(g.generators[0].target)}) <= popped:
                         R.ok("H9", "%s excludes only the reference it came from" % f.qualname, f.loc(g))
                     else:
                         R.bad("H9", "%s|exclusion" % f.key, f.loc(g),
